@@ -8,7 +8,10 @@
 (3) The Go harness (harness/cmd/c14) realises every case with real ECDSA keys and signatures and submits it
     to the real DefaultSaftyRules.CheckProposal (directly, through the block's consensus-storage encoding, and
     through the real xpoa CheckMinerMatch) / CheckVote / CalVotesThreshold and to the real vote collection
-    (Smr.handleReceivedVoteMsg through the verif shim); it records the verdicts.
+    (Smr.handleReceivedVoteMsg through the verif shim); it records the verdicts.  The validator set in force for
+    the certified view is a dimension of its own: certificates arrive as the justify of a proposal through the real
+    Smr.handleReceivedProposal at a validator-set change (election stub answering by view: old set / new set,
+    differing in membership and size; signed by the old set, the new set, the intersection).
 (4) TLC validates the recorded verdicts against the same operators (Trace_QC): first IDEAL, then - if
     rejected - ACTUAL with exactly the deviations listed as known.
 """
@@ -104,6 +107,59 @@ def sampled_cases(rng, kinds, count, lo, hi):
     return out
 
 
+def _quorum(signs, S):
+    """Case selection and coverage counting only (never the oracle): does the certificate carry valid signatures of a
+    quorum of the set S?"""
+    ok = {e["a"] for e in signs if e["a"] in S and e["k"] == e["a"] and e["s"] == "good"}
+    return len(ok) >= len(S) - (len(S) - 1) // 3 - 1
+
+
+def receive_ops(rng, cases, per_case):
+    """The certificate as the justify of a proposal received at a validator-set change: vc = the set in force for the
+    certified view, vp = the set in force for the view of the carrying proposal, both subsets of the identities 1..n.
+    Scenarios: signed by the old set only / by the new set only / by the intersection, sets differing in membership
+    and in size, unchanged set, arbitrary pairs."""
+    ops = []
+    for n, signs in cases:
+        ids = list(range(1, n + 1))
+        signers = sorted({e["a"] for e in signs if e["a"] >= 1 and e["k"] == e["a"] and e["s"] == "good"})
+        others = [i for i in ids if i not in signers]
+
+        def some(pool, lo, hi):
+            pool = list(pool)
+            if not pool:
+                return []
+            return rng.sample(pool, max(min(lo, len(pool)), min(len(pool), rng.randint(lo, hi))))
+
+        for _ in range(per_case):
+            kind = rng.randrange(7)
+            if kind == 0 and signers:        # the old set signed; the new set shares at most one member with it
+                vc = signers + some(others, 0, 1)
+                vp = some(others, 1, n) + some(signers, 0, 1)
+            elif kind == 1 and signers:      # the NEW set signed a certificate of the old set's view
+                vp = signers + some(others, 0, 1)
+                vc = some(others, 1, n) + some(signers, 0, 1)
+            elif kind == 2 and len(signers) >= 2:     # the intersection signed
+                common = signers
+                vc = common + some(others, 0, 2)
+                vp = common + some([i for i in others if i not in vc], 0, 2)
+            elif kind == 3:                  # the set grows / shrinks
+                vc = some(ids, 1, max(1, n // 2))
+                vp = sorted(set(vc) | set(some(ids, 1, n)))
+                if rng.random() < 0.5:
+                    vc, vp = vp, vc
+            elif kind == 4:                  # no change
+                vc = some(ids, 1, n)
+                vp = list(vc)
+            else:
+                vc, vp = some(ids, 1, n), some(ids, 1, n)
+            vc, vp = sorted(set(vc)), sorted(set(vp))
+            if not vc or not vp:
+                continue
+            ops.append({"op": "receive", "n": n, "vc": vc, "vp": vp, "signs": signs})
+    return ops
+
+
 def collection_from_case(rng, n, signs):
     """A vote collection that delivers the entries of a certificate one message at a time, in random order."""
     msgs = list(signs)
@@ -170,7 +226,9 @@ def replay_validate(run, behs, kf, name, batch, par):
             else:
                 what = ("%s: the real code answered %s where the specification allows only %s; n=%s %s signs=%s" % (
                     div.get("op"), div.get("actres"), div.get("expres"), ev.get("n"),
-                    ("input=%s sum=%s" % (ev.get("input"), ev.get("sum"))) if ev.get("op") == "thr" else "", json.dumps(ev.get("signs"))))
+                    ("input=%s sum=%s" % (ev.get("input"), ev.get("sum"))) if ev.get("op") == "thr" else
+                    ("validator set in force for the certified view %s, for the proposal's view %s" % (ev.get("vc"), ev.get("vp")))
+                    if ev.get("op") == "receive" else "", json.dumps(ev.get("signs"))))
             run.violation(what, {"property": "C14", "seed": run.seed,
                                  "program": [{k: v for k, v in e.items() if k not in ("obs", "tr", "i", "why", "route", "res")} for e in prog],
                                  "expected_result": div.get("expres"), "actual_result": div.get("actres"),
@@ -199,10 +257,14 @@ def check(run):
 
     # (2) validator sets up to 10: TLC simulation (single and multi-signature vote messages), started first
     # and running beside (1)
-    pool = concurrent.futures.ThreadPoolExecutor(max_workers=4)
+    pool = concurrent.futures.ThreadPoolExecutor(max_workers=5)
     genjobs = [pool.submit(run.tlc_gen, "Gen_QC.tla", "Gen_QC.cfg", num, 600, name="gen%d" % k, seed=run.seed + k,
                            consts={"MaxSigs": sigs})
                for k, (num, sigs) in enumerate([(25, 1), (15, 3)] if quick else [(60, 1), (60, 1), (40, 3), (40, 3)])]
+    # thorough: the set-in-force invariant (ReceiveOK: every non-empty set for the certified view x unchanged / all / the others
+    # for the carrying view) for n <= 5 in a model of its own (no vote collection), beside the others; the quick
+    # configuration checks it in the main model (n <= 4)
+    recvjob = None if quick else pool.submit(run.tlc_mc, "QC.tla", "MC_QC_recv_thorough.cfg", workers=6, timeout=1500)
     # (1) exhaustive model check of the IDEAL design; its state space is the case list
     res, dump, kinds = mc_dump(run, "MC_QC.cfg" if quick else "MC_QC_thorough.cfg", workers=12, timeout=900 if quick else 1500)
     certs, colls = cases_from_dump(dump, kinds)
@@ -223,12 +285,20 @@ def check(run):
     gen = []
     for j in genjobs:
         gen += j.result()
+    if recvjob is not None:
+        recvjob.result()
     pool.shutdown()
     behs += gen
     # ... and a seeded sampler for volume
     samp = sampled_cases(rng, kinds, 2500 if quick else 40000, 6, 10)
     behs += chunk(pure_ops(samp, run.seed, 11), 1500)
     behs += [collection_from_case(rng, n, s) for n, s in samp[:400 if quick else 4000]]
+    # the validator set in force as a function of the view: enumerated certificates of the larger sets and sampled ones as
+    # the justify of a proposal received (real Smr.handleReceivedProposal) at a validator-set change
+    rcases = [c for c in certs if c[0] >= 3]
+    rcases = rng.sample(rcases, min(len(rcases), 900 if quick else 6000)) + sampled_cases(rng, kinds, 450 if quick else 3000, 5, 10)
+    recv = receive_ops(rng, rcases, 2)
+    behs += chunk(recv, 300)
 
     # (3) + (4)
     events, inexact = replay_validate(run, behs, kf, "t", batch=60 if quick else 80, par=par)
@@ -246,7 +316,22 @@ def check(run):
         "the collector's own address is member 1; the collected proposal is a child of the root (view 1)",
         "a third of the standard-frame certificates reach CheckProposal through the real xpoa CheckMinerMatch (stub ledger of "
         "kernel/consensus/mock, static validator set), a third through the block's consensus-storage encoding "
-        "(common.NewToOldQC / OldQCToNew), a third directly; tdpos CheckMinerMatch is not driven"]
+        "(common.NewToOldQC / OldQCToNew), a third directly; tdpos CheckMinerMatch is not driven",
+        "validator-set change: the election stub of the real Smr answers GetValidators with the old set up to the certified "
+        "view and with the new set from the next view on (any two non-empty subsets of the identities 1..n; below the "
+        "certified view the new set again or the complement of the old one); accepted = handleReceivedProposal stored the "
+        "proposal in the pending tree. A third of these cases go through the real xpoa CheckMinerMatch instead: block 8 "
+        "carrying the certificate of block 7 over a stub ledger whose contract state recorded the old set after block 3 (in "
+        "force for height 6, the justify's validators) and the new set after block 4 (in force for height 7, names the "
+        "producer). Half of the vote collections run with an election in which members 1..n are in force for the collected "
+        "proposal's view only. tdpos CheckMinerMatch is not driven"]
+    rc = {"receive_ops": len(recv),
+          "set_changes": sum(1 for o in recv if o["vc"] != o["vp"]),
+          "set_size_changes": sum(1 for o in recv if len(o["vc"]) != len(o["vp"])),
+          "quorum_of_old_set_only": sum(1 for o in recv if _quorum(o["signs"], o["vc"]) and not _quorum(o["signs"], o["vp"])),
+          "quorum_of_new_set_only": sum(1 for o in recv if _quorum(o["signs"], o["vp"]) and not _quorum(o["signs"], o["vc"]))}
+    rc["tlc_generated_receive_ops"] = count_ops(gen, lambda o: o["op"] == "receive")
+    run.cov["validator_set_changes"] = rc
     run.cov["real_code"] = dict(STATS)
     run.finish(require={
         "certificates_on_real_code": (len(certs) + len(samp), 1000),
@@ -258,5 +343,12 @@ def check(run):
         "collections": (count_ops(behs, lambda o: o["op"] == "collect"), 100),
         "vote_messages": (count_ops(behs, lambda o: o["op"] == "votemsg"), 500),
         "threshold_points": (169, 169),
+        "proposals_received_at_a_set_change": (rc["set_changes"], 1000),
+        "received_with_quorum_of_old_set_only": (rc["quorum_of_old_set_only"], 150),
+        "received_with_quorum_of_new_set_only": (rc["quorum_of_new_set_only"], 150),
+        "received_set_size_changes": (rc["set_size_changes"], 300),
+        "received_accepted_by_real_code": (STATS.get("accept_receive", 0), 150),
+        "received_through_xpoa_CheckMinerMatch": (STATS.get("receive_xpoa_cases", 0), 300),
+        "received_accepted_by_xpoa_CheckMinerMatch": (STATS.get("accept_receive_xpoa", 0), 50),
         "trace_events": (events, 3000),
     })
